@@ -249,6 +249,17 @@ Log(c, ty) ==
   /\ Begin(c, "ok", [op |-> "Log", c |-> c, ty |-> ty])
   /\ UNCHANGED <<cur, blocks, born, base, ids, dests, anyAdded, buffer, gf, reg, offered, ret, nfaults, dev, gh>>
 
+\* Logger().write(d) with a dictionary the caller built itself (its own fresh task_uuid, task_level [1]): the message goes
+\* out like any other and the caller's dictionary is left exactly as it was (checked by the harness: result "mutated")
+RawWrite(c) ==
+  /\ Idle /\ born[c] /\ Room
+  /\ nuuid' = nuuid + 1
+  /\ work' = <<WriteItem(Msg(nuuid + 1, <<1>>, "msg", "m", "", MsgFields("m"), ""))>>
+  /\ nodes' = AddNode(0, "msg", "m", "")
+  /\ nmsgs' = nmsgs + 1
+  /\ Begin(c, "ok", [op |-> "RawWrite", c |-> c])
+  /\ UNCHANGED <<acts, cur, blocks, born, base, ids, dests, anyAdded, buffer, gf, reg, offered, ret, nfaults, dev, gh>>
+
 \* a.log(ty, ...) on an explicit, unfinished action (whatever the current context)
 CanActionLog(c, a) == Idle /\ born[c] /\ a \in DOMAIN acts /\ ~acts[a].fin
 ActionLog(c, a, ty) ==
@@ -549,6 +560,7 @@ Next ==
                                  \/ F("succ") /\ \E f \in {"y", "z"} : AddSuccess(c, a, f)
        \/ \E o \in Outcomes : (o \in ExtOutcomes => F("ext")) /\ Exit(c, o)
        \/ \E ty \in MsgTypes : (ty \in {"M", "N", "N0"} => F("typed")) /\ (ty = "h" => F("hostile")) /\ Log(c, ty)
+       \/ F("raw") /\ RawWrite(c)
        \/ F("tb") /\ \E o \in {"exc", "x1"} : (o = "x1" => F("ext")) /\ WriteTraceback(c, o)
        \/ F("ext") /\ \E k \in {"E0", "E1", "E2"} : Register(c, k)
        \/ F("remote") /\ (SerializeId(c) \/ \E i \in DOMAIN ids : ContinueTask(c, i))
